@@ -1133,6 +1133,7 @@ func c15Sctp(e *Env) {
 	handled := map[string]int{}
 	mux := diam.NewServeMux()
 	panicOn := -1 // association whose first handler panics (instead of a read error)
+	closeFirst := t.Chance(1, 2)
 	mux.HandleFunc("ALL", func(c diam.Conn, m *diam.Message) {
 		if len(m.AVP) > 0 {
 			if ai, _, ok := parseMarker(m.AVP[0].Data.Serialize()); ok {
@@ -1142,6 +1143,11 @@ func c15Sctp(e *Env) {
 				mu.Unlock()
 				if boom {
 					e.Fault("sctp-handler-panic")
+					if closeFirst {
+						// the handler gives up the association, then fails
+						c.Close()
+						e.Probe("sctp-handler-closes-then-panics")
+					}
 					panic("sim: handler panic on an SCTP association")
 				}
 			}
